@@ -94,7 +94,7 @@ pub fn record_c11(args: &Args, mut out: Out) -> usize {
     let all_sigma: Vec<[usize; 4]> = perms(4).into_iter().map(|p| [p[0], p[1], p[2], p[3]]).collect();
     for b in 0..nbase {
         // bases that make suits matter: flush-heavy flops, suited combos, overlapping cards, ties
-        let mut cfg = match b % 6 {
+        let mut cfg = match b % 7 {
             0 => random_cfg(&mut rng, 2, 4, 1),
             1 => random_cfg(&mut rng, 3, 3, 1),
             2 => {
@@ -119,6 +119,24 @@ pub fn record_c11(args: &Args, mut out: Out) -> usize {
                     ranges.push(r);
                 }
                 Cfg { flop, ranges, from: (0, 1), to: (48, 49), scoped: false }
+            }
+            6 => {
+                // a suit-symmetric range of more than 256 combos (all pockets, every suited and offsuit ace) against one combo
+                let mut big = vec![];
+                for r in 0..13 {
+                    for c in pocket(r) {
+                        big.push(Entry { a: c.0, b: c.1, m: 1, e: 0 });
+                    }
+                }
+                for k in 1..13 {
+                    for c in suited(0, k).into_iter().chain(ofsuit(0, k).into_iter()) {
+                        big.push(Entry { a: c.0, b: c.1, m: 1, e: 1 });
+                    }
+                }
+                let f = rng.distinct(3, 52);
+                let q = rng.distinct(2, 52);
+                let (a, bb) = norm(q[0], q[1]);
+                Cfg { flop: [f[0], f[1], f[2]], ranges: vec![big, vec![Entry { a, b: bb, m: 1, e: 0 }]], from: (0, 1), to: (48, 49), scoped: false }
             }
             4 | 5 => {
                 // flush wars inside a band of six adjacent ranks (low band 7..2, a middle band, or the top band): the flop is
